@@ -211,6 +211,14 @@ func (x *Exec) model(st *State, fr *Frame, dst ssa.Value, callee *ssa.Function, 
 	case "(*sync.WaitGroup).Wait":
 		r := x.refOf(args[0])
 		x.siteAsserts(st, fr, "wgwait:"+x.argPath(fr, 0), pos)
+		if x.FC != nil && len(st.Frames) == 1 {
+			// `ghost nowait PATH`: this function never waits for that WaitGroup (its end must not depend on whoever holds its tokens)
+			for _, cl := range x.FC.Of("ghost") {
+				if strings.HasPrefix(cl.Text, "nowait ") && strings.TrimSpace(strings.TrimPrefix(cl.Text, "nowait ")) == x.argPath(fr, 0) {
+					x.failHard(st, "assert", fmt.Sprintf("nowait:%s#%d", x.argPath(fr, 0), x.site(st, "nowait")), pos, "the contract says this function never waits for "+x.argPath(fr, 0))
+				}
+			}
+		}
 		if x.worder() != nil {
 			if rv := x.recvOperand(fr); rv != nil {
 				cls := x.classOfValue(st, rv, x.argPath(fr, 0))
